@@ -67,6 +67,14 @@ void fpEval(const json &in, json &out) {
         const json &xs = in.at("xs");
         for (size_t i = 0; i < xs.size(); i++)
           acc.cmp(a(Codec<F>::dec(xs[i])), ratQ(in.at("E")[i]), ratQ(in.at("S")[i]), "x" + std::to_string(i));
+        try {  // second pass with full-mantissa coefficients (see vh_fp.h)
+          const Grid<Rat> gr = mkGrid<Rat>(ja.at("g"));
+          const auto ap = perturbedSpline(a, caseKey(in));
+          const auto ar = exactTwin(ap, gr);
+          for (size_t i = 0; i < xs.size(); i++)
+            acc.cmp(ap(Codec<F>::dec(xs[i])), ratToQ(ar(Codec<Rat>::dec(xs[i]))), 2 * ratQ(in.at("S")[i]), "px" + std::to_string(i));
+        } catch (const RatError &) {
+        }
       }
     });
   });
